@@ -141,19 +141,32 @@ theorem let_unfold (c : Ctx) (gs : Fields) :
       (if (!(dhas "vars" gs) || !(dhas "in" gs)) = true then .error .opFail
        else if gs.any (fun kv => !(["vars", "in"].contains kv.1)) = true then .error .opFail
        else match dget "vars" gs with
-         | some (.doc _) =>
-           (evalVarsAt c gs).bind (fun r =>
-             match r with
-             | none => .ok none
-             | some vs => evalAt (c.bindAll vs) "in" gs)
+         | some (.doc vs) =>
+           if (!(vs.all (fun kv => validVarName kv.1))) = true then .error .opFail
+           else (evalVarsAt c gs).bind (fun bs => evalAt (c.bindAll bs) "in" gs)
          | _ => .error .opFail) := by
-  have h1 : classify "$let" = .projection := by decide
-  have h2 := mode_shaped_doc "$let" gs (by simp)
-  simp only [eval, List.length_singleton, Nat.lt_irrefl, decide_false, Bool.false_and,
-    Bool.false_eq_true, if_false, evalDoc, h1, h2, evalOp, if_true]
+  rw [eval_shaped c "$let" _ (by decide) (by decide) (by decide) (by decide)
+    (Or.inl (by decide)) (mode_shaped_doc "$let" gs (by simp))]
+  simp only [evalOp, if_true]
   cases hv : dget "vars" gs with
   | none => simp
-  | some w => cases w <;> simp <;> (try split) <;> (try split) <;> rfl
+  | some w => cases w <;> simp <;> (try split) <;> (try split) <;> (try split) <;> rfl
+
+/-- a name the rules accept is one the code accepts -/
+theorem userVar_valid (s : String) (h : userVarName s = true) : validVarName s = true := by
+  unfold userVarName at h
+  unfold validVarName
+  cases hl : s.toList with
+  | nil => simp [hl] at h
+  | cons ch r =>
+    simp only [hl, Bool.and_eq_true] at h
+    have h1 : isVarStart ch = true := by simpa [isVarStart, isLower, nonAscii] using h.1
+    have h2 : r.all isVarChar = true := by
+      rw [List.all_eq_true] at h ⊢
+      intro x hx
+      have := h.2 x hx
+      simpa [isVarChar, isLower, isUpper, isDigitC, nonAscii] using this
+    simp [h1, h2]
 
 theorem dhas_two (k : String) (k1 k2 : String) (v1 v2 : Val)
     (h : dhas k [(k1, v1), (k2, v2)] = true) : k1 = k ∨ k2 = k := by
@@ -179,33 +192,22 @@ theorem let_keys (gs : Fields) (h1 : dhas "vars" gs = true) (h2 : dhas "in" gs =
 /-- `$let` -/
 theorem let_case (c : Ctx) (root : Val) (env : Env) (hr : EnvRel c root env) (gs : Fields)
     (hsub : AllSubFields Agrees gs)
-    (hre : (match dget "vars" gs with
-         | some (.doc vs) =>
-           if (!(vs.all (fun kv => userVarName kv.1))) = true then ["laxargs"] else []
-         | _ => []) ++
-        rVarsAt root env gs ++
+    (hre : rVarsAt root env gs ++
         (match sVarsAt root env gs with
-         | .ok bs =>
-           (if bs.any (fun b => b.2.isNone) = true then ["letmissing"] else []) ++
-           rAt root (bs.reverse ++ env) "in" gs
-         | .error _ =>
-           match dget "vars" gs with
-           | some (.doc vs) =>
-             if vs.any (fun kv => match sEval root env kv.2 with | .ok none => true | _ => false) = true
-             then ["letmissing"] else []
-           | _ => []) = [])
+         | .ok bs => rAt root (bs.reverse ++ env) "in" gs
+         | .error _ => []) = [])
     (res : Option Val)
     (hres : (match dget "vars" gs, dhas "in" gs with
         | some (.doc vs), true =>
-          if (gs.length ≠ 2 || !(vs.all (fun kv => userVarName kv.1))) = true then
-            (Except.error Err.opFail : R (Option Val))
+          if gs.length ≠ 2 then (Except.error Err.opFail : R (Option Val))
+          else if vs.any (fun kv => kv.1 = "CURRENT") = true then unmodelled
+          else if (!(vs.all (fun kv => userVarName kv.1))) = true then .error .opFail
           else do
             let bs ← sVarsAt root env gs
             sAt root (bs.reverse ++ env) "in" gs
         | _, _ => (Except.error Err.opFail : R (Option Val))) = .ok res) :
     eval c (.doc [("$let", .doc gs)]) = .ok res := by
-  obtain ⟨h12, h3⟩ := append_nil2 hre
-  obtain ⟨h1, h2⟩ := append_nil2 h12
+  obtain ⟨h2, h3⟩ := append_nil2 hre
   cases hv : dget "vars" gs with
   | none => simp [hv] at hres
   | some w =>
@@ -217,29 +219,31 @@ theorem let_case (c : Ctx) (root : Val) (env : Env) (hr : EnvRel c root env) (gs
         simp only [hv, hin] at hres
         split at hres
         · cases hres
-        · rename_i hlax
-          have hlen : gs.length = 2 := by
-            by_contra hne
-            exact hlax (by simp [hne])
-          rw [sVarsAt_eq root env gs vs hv] at hres h3
-          rw [rVarsAt_eq root env gs vs hv] at h2
-          have hsv : AllSubFields Agrees vs := (hsub.mem (dget_mem' hv)).fields
-          obtain ⟨bs, hbs, hrest⟩ := vars_agree c root env hr vs hsv h2
-          simp only [hbs, bind, Except.bind] at hres h3
-          obtain ⟨h31, h32⟩ := append_nil2 h3
-          have hnone : bs.any (fun b => b.2.isNone) = false := by
-            cases hb : bs.any (fun b => b.2.isNone) with
-            | false => rfl
-            | true => rw [hb] at h31; simp at h31
-          obtain ⟨xs, hxs, hbx⟩ := hrest hnone
-          have hvars : dhas "vars" gs = true := by simp [dhas, hv]
-          rw [let_unfold, evalVarsAt_eq c gs vs hv, hxs]
-          simp only [hvars, hin, Bool.not_true, Bool.or_self, Bool.false_eq_true, if_false, hv,
-            let_keys gs hvars hin hlen, Except.bind]
-          obtain ⟨vin, hvin⟩ := dhas_dget hin
-          subst hbx
-          have hr' := hr.bindAll xs
-          rw [at_agree (c.bindAll xs) root _ hr' "in" gs vin hvin hsub h32, hres]
+        · rename_i hlen'
+          have hlen : gs.length = 2 := by simpa using hlen'
+          split at hres
+          · simp [unmodelled] at hres
+          · split at hres
+            · cases hres
+            · rename_i hnames
+              have hnames' : vs.all (fun kv => userVarName kv.1) = true := by
+                simpa using hnames
+              have hvalid : vs.all (fun kv => validVarName kv.1) = true := by
+                rw [List.all_eq_true] at hnames' ⊢
+                intro kv hkv
+                exact userVar_valid kv.1 (hnames' kv hkv)
+              rw [sVarsAt_eq root env gs vs hv] at hres h3
+              rw [rVarsAt_eq root env gs vs hv] at h2
+              have hsv : AllSubFields Agrees vs := (hsub.mem (dget_mem' hv)).fields
+              obtain ⟨bs, hbs, hbs'⟩ := vars_agree c root env hr vs hsv h2
+              simp only [hbs, bind, Except.bind] at hres h3
+              have hvars : dhas "vars" gs = true := by simp [dhas, hv]
+              rw [let_unfold, evalVarsAt_eq c gs vs hv, hbs']
+              simp only [hvars, hin, Bool.not_true, Bool.or_self, Bool.false_eq_true, if_false, hv,
+                let_keys gs hvars hin hlen, hvalid, Except.bind]
+              obtain ⟨vin, hvin⟩ := dhas_dget hin
+              have hr' := hr.bindAll bs
+              rw [at_agree (c.bindAll bs) root _ hr' "in" gs vin hvin hsub h3, hres]
     | _ => all_goals (simp [hv] at hres)
 
 end MongoModel.Proofs.C04
